@@ -88,3 +88,12 @@ Fixpoint chunk8 (n : nat) (l : list Z) : list (list Z) :=
   match n with O => [] | S k => firstn 8 l :: chunk8 k (skipn 8 l) end.
 Definition c_fdct_ifast (blk : list Z) : list Z := concat (fdct2 c_alg (chunk8 8 blk)).
 Definition asm_fdct_ifast (blk : list Z) : list Z := map s16 (concat (fdct2 asm_alg (chunk8 8 (map w16 blk)))).
+
+(* does any multiply operand of the C computation (pass 1 on the rows, pass 2 on the columns of the
+   pass-1 result) leave the 14-bit range a 2-bit pre-shift can hold?  Used by the check to classify blocks. *)
+Definition in14b (v : Z) : bool := (-8192 <=? v) && (v <? 8192).
+Definition c_wraps14 (blk : list Z) : bool :=
+  let rows := chunk8 8 blk in
+  let p1 := map (fdct1 c_alg) rows in
+  negb (forallb (fun r => forallb in14b (c_operands r)) rows &&
+        forallb (fun r => forallb in14b (c_operands r)) (transpose p1)).
